@@ -1,6 +1,7 @@
 package mon
 
 import (
+	"strings"
 	"fmt"
 	"math/big"
 
@@ -114,6 +115,94 @@ func (m *C06) OnStep(_ explore.Ghost, st *explore.Step) []V {
 		}
 		if po := st.Pre.Order(id); po != nil && po.MarketId != o.MarketId {
 			m.inc("denom_changes")
+		}
+	}
+	return append(out, m.asRequested(st, ids)...)
+}
+
+// wantOrder is what an order must look like according to the messages that wrote it.
+type wantOrder struct {
+	seller, batch, qty, askAmount, askDenom string
+	dar                                     bool
+}
+
+// asRequested: a created or updated order carries exactly the requested seller, batch, quantity, ask
+// amount, ask denomination (through its market, which must be the market of the batch's credit type) and
+// auto-retire flag. Every other clause reads these fields back from state, so they must be the request's.
+func (m *C06) asRequested(st *explore.Step, ids []uint64) []V {
+	want := map[uint64]*wantOrder{}
+	switch msg := st.Res.Msg.(type) {
+	case *markettypes.MsgSell:
+		if len(ids) != len(msg.Orders) {
+			return []V{{Kind: "C06/sell-response-id-count", Detail: fmt.Sprintf("%s: %d orders, %d ids", st.Act.Label, len(msg.Orders), len(ids))}}
+		}
+		for i, o := range msg.Orders {
+			if o.AskPrice == nil {
+				return nil
+			}
+			want[ids[i]] = &wantOrder{seller: msg.Seller, batch: o.BatchDenom, qty: o.Quantity, askAmount: o.AskPrice.Amount.String(), askDenom: o.AskPrice.Denom, dar: o.DisableAutoRetire}
+		}
+	case *markettypes.MsgUpdateSellOrders:
+		for _, u := range msg.Updates {
+			w := want[u.SellOrderId]
+			if w == nil {
+				po := st.Pre.Order(u.SellOrderId)
+				if po == nil {
+					continue
+				}
+				w = &wantOrder{seller: addrStr(po.Seller), batch: denomOf(st.Pre, po.BatchKey), qty: po.Quantity, askAmount: po.AskAmount}
+				if mk := st.Pre.Market(po.MarketId); mk != nil {
+					w.askDenom = mk.BankDenom
+				}
+				want[u.SellOrderId] = w
+			}
+			w.dar = u.DisableAutoRetire
+			if u.NewAskPrice != nil {
+				w.askAmount, w.askDenom = u.NewAskPrice.Amount.String(), u.NewAskPrice.Denom
+			}
+			if u.NewQuantity != "" {
+				w.qty = u.NewQuantity
+			}
+		}
+	}
+	var out []V
+	for id, w := range want {
+		o := st.Post.Order(id)
+		if o == nil {
+			continue // reported above
+		}
+		var diffs []string
+		if addrStr(o.Seller) != w.seller {
+			diffs = append(diffs, fmt.Sprintf("seller %s, requested %s", addrStr(o.Seller), w.seller))
+		}
+		if d := denomOf(st.Post, o.BatchKey); d != w.batch {
+			diffs = append(diffs, fmt.Sprintf("batch %s, requested %s", d, w.batch))
+		}
+		if rat(o.Quantity).Cmp(rat(w.qty)) != 0 {
+			diffs = append(diffs, fmt.Sprintf("quantity %s, requested %s", o.Quantity, w.qty))
+		}
+		if o.AskAmount != w.askAmount {
+			diffs = append(diffs, fmt.Sprintf("ask amount %s, requested %s", o.AskAmount, w.askAmount))
+		}
+		if o.DisableAutoRetire != w.dar {
+			diffs = append(diffs, fmt.Sprintf("disable_auto_retire %v, requested %v", o.DisableAutoRetire, w.dar))
+		}
+		if mk := st.Post.Market(o.MarketId); mk != nil {
+			if mk.BankDenom != w.askDenom {
+				diffs = append(diffs, fmt.Sprintf("market denom %s, requested %s", mk.BankDenom, w.askDenom))
+			}
+			if b := st.Post.BatchByKey(o.BatchKey); b != nil {
+				if p := st.Post.ProjectByKey(b.ProjectKey); p != nil {
+					if c := st.Post.ClassByKey(p.ClassKey); c != nil && c.CreditTypeAbbrev != mk.CreditTypeAbbrev {
+						diffs = append(diffs, fmt.Sprintf("market %d is for credit type %s, the batch is of type %s", mk.Id, mk.CreditTypeAbbrev, c.CreditTypeAbbrev))
+					}
+				}
+			}
+		}
+		m.inc("orders_compared_with_request")
+		if len(diffs) > 0 {
+			out = append(out, V{Kind: "C06/stored-order-differs-from-request/" + actType(st.Act),
+				Detail: fmt.Sprintf("order %d after %s: %s", id, st.Act.Label, strings.Join(diffs, "; "))})
 		}
 	}
 	return out
